@@ -47,6 +47,10 @@ pub struct SendSpec {
     /// directions of a hop have independent channels, so opposite traffic must not interfere)
     #[serde(default)]
     pub with_prev: bool,
+    /// the receiver sends the very same Message object back into the chain; the echo must arrive at the original
+    /// sender with the echoing module recorded as sender
+    #[serde(default)]
+    pub echo: bool,
 }
 
 #[derive(Clone, Debug, Serialize, Deserialize)]
@@ -70,6 +74,8 @@ pub struct C08;
 struct Node {
     /// (trigger id, gate, delay, body bytes, time slot)
     sends: Vec<(u16, GateRef, Option<u32>, u16, u16)>,
+    /// ids of messages this module echoes back on the given gate
+    echoes: Vec<(u16, GateRef)>,
 }
 
 impl Module for Node {
@@ -91,7 +97,15 @@ impl Module for Node {
         } else {
             let h = msg.header();
             let gate = h.last_gate.as_ref().map(|g| g.path().as_str().to_string()).unwrap_or_default();
-            net::log(&format!("recv via {gate}"), h.id as i64, ((h.sender_module_id.0 as i64) << 16) | h.receiver_module_id.0 as i64);
+            let kind = if h.kind == 3 { "echo" } else { "recv" };
+            net::log(&format!("{kind} via {gate}"), h.id as i64, ((h.sender_module_id.0 as i64) << 16) | h.receiver_module_id.0 as i64);
+            if h.kind == 2 {
+                if let Some((_, g)) = self.echoes.iter().find(|e| e.0 == h.id) {
+                    // relay the received object itself (not a fresh message)
+                    let g = g.clone();
+                    send(msg.kind(3), g);
+                }
+            }
         }
     }
 }
@@ -141,7 +155,7 @@ pub fn run_case(case: &Case) -> Result<(bool, Vec<&'static str>), Failure> {
     // filled in afterwards through as_mut
     let paths: Vec<String> = (0..nmod).map(|i| format!("m{i}")).collect();
     for p in &paths {
-        sim.node(p.as_str(), Node { sends: Vec::new() });
+        sim.node(p.as_str(), Node { sends: Vec::new(), echoes: Vec::new() });
     }
     let owners: Vec<usize> = case.gates.iter().map(|g| idx(g.owner, nmod)).collect();
     let mut gates: Vec<GateRef> = Vec::new();
@@ -256,6 +270,19 @@ pub fn run_case(case: &Case) -> Result<(bool, Vec<&'static str>), Failure> {
         let (m, g) = if s.from_far_end { (&b_mod, gates[k].clone()) } else { (&a_mod, gates[0].clone()) };
         m.as_mut::<Node>().sends.push((i as u16, g, s.delay, s.body % 2000, slots[i]));
     }
+    // echoes only for sends that have their time slot for themselves and distinct endpoint modules
+    let echo_ok: Vec<bool> = case
+        .sends
+        .iter()
+        .enumerate()
+        .map(|(i, s)| s.echo && owners[0] != owners[k] && slots.iter().filter(|x| **x == slots[i]).count() == 1)
+        .collect();
+    for (i, s) in case.sends.iter().enumerate() {
+        if echo_ok[i] {
+            let (m, g) = if s.from_far_end { (&a_mod, gates[0].clone()) } else { (&b_mod, gates[k].clone()) };
+            m.as_mut::<Node>().echoes.push((i as u16, g));
+        }
+    }
     drop(a_mod);
     drop(b_mod);
     drop(gates);
@@ -279,6 +306,7 @@ pub fn run_case(case: &Case) -> Result<(bool, Vec<&'static str>), Failure> {
     vensure!(ok, "run-returned-error", "run() returned an error");
     third_res?;
 
+    let mut labels_extra: Vec<&'static str> = Vec::new();
     for (i, s) in case.sends.iter().enumerate() {
         let len = 64 + (s.body % 2000) as usize;
         let t0 = 100_000_000_000u128 * (slots[i] as u128 + 1) + s.delay.unwrap_or(0) as u128;
@@ -326,6 +354,26 @@ pub fn run_case(case: &Case) -> Result<(bool, Vec<&'static str>), Failure> {
             r.b >> 16,
             r.b & 0xffff
         );
+        if echo_ok[i] {
+            // the echo travels the chain the other way round and arrives at the original sender
+            let mut te = t;
+            for &h in hops.iter().rev() {
+                te += hop_delay(&hop_ch[h], len);
+            }
+            let (home, home_gate) = if s.from_far_end { (&paths[owners[k]], &gate_paths[k]) } else { (&paths[owners[0]], &gate_paths[0]) };
+            let echoes: Vec<&Rec> = log.iter().filter(|r| r.kind.starts_with("echo") && r.a == i as i64).collect();
+            vensure!(echoes.len() == 1, if echoes.is_empty() { "message-lost" } else { "message-duplicated" }, "echo of message {i} was delivered {} times", echoes.len());
+            let e = echoes[0];
+            vensure!(e.path == *home && e.now == te, "arrival-time", "echo of message {i} arrived at '{}' at {} ns, expected '{home}' at {te} ns", e.path, e.now);
+            vensure!(e.kind == format!("echo via {home_gate}"), "last-gate", "echo of message {i}: last_gate '{}', expected '{home_gate}'", &e.kind[9..]);
+            vensure!(
+                e.b == (r_id << 16) | s_id,
+                "header-module-ids",
+                "echo of message {i} (the received Message object sent on): header (sender, receiver) = ({}, {}), expected ({r_id}, {s_id})",
+                e.b >> 16,
+                e.b & 0xffff
+            );
+        }
         let dir = if s.from_far_end { 1 } else { 0 };
         let probes: Vec<(u128, i64)> = log
             .iter()
@@ -340,10 +388,13 @@ pub fn run_case(case: &Case) -> Result<(bool, Vec<&'static str>), Failure> {
             want_probes
         );
     }
+    if echo_ok.iter().any(|e| *e) {
+        labels_extra.push("echo-of-received-message");
+    }
     let recvs = log.iter().filter(|r| r.kind.starts_with("recv")).count();
     vensure!(recvs == case.sends.len(), "message-duplicated", "{recvs} deliveries for {} sends", case.sends.len());
 
-    let mut labels = Vec::new();
+    let mut labels = labels_extra;
     if k >= 3 {
         labels.push("hops>=3");
     }
@@ -411,7 +462,7 @@ impl Prop for C08 {
         let gate = (any::<u16>(), 0u8..3, 0u8..3).prop_map(|(owner, size, pos)| GateSpec { owner, size, pos });
         let rep = (any::<u16>(), (any::<u16>(), any::<bool>(), ch.clone()).prop_map(|(hop, flipped, ch)| ConnectCall { hop, flipped, ch }));
         let send = (any::<bool>(), proptest::option::weighted(0.5, prop_oneof![Just(0u32), 1u32..1_000_000_000]), 0u16..2000, any::<bool>())
-            .prop_map(|(from_far_end, delay, body, with_prev)| SendSpec { from_far_end, delay, body, with_prev });
+            .prop_map(|(from_far_end, delay, body, with_prev)| SendSpec { from_far_end, delay, body, with_prev, echo: body % 3 == 0 });
         (2usize..=max_hops + 1)
             .prop_flat_map(move |ngates| {
                 (
